@@ -1020,7 +1020,6 @@ func (a *anchors) whoMayCall() {
 		algo = "CHA+VTA"
 	}
 	c.R.Extra["callgraph"] = algo
-	c.R.Extra["callgraph_nodes"] = len(cg.Nodes)
 
 	type site struct {
 		fn   *ssa.Function
